@@ -18,8 +18,8 @@ type monC15 struct {
 	dead bool
 }
 
-func newMonC15() *monC15      { return &monC15{} }
-func (m *monC15) Name() string { return "C15" }
+func newMonC15() *monC15           { return &monC15{} }
+func (m *monC15) Name() string     { return "C15" }
 func (m *monC15) Finish(r *Runner) {}
 
 func (m *monC15) pendingInto(del, val, denom string) *REntry {
